@@ -326,16 +326,25 @@ else:
 
                             is_default = True
 
-                    kwargs[field.name] = Argument(
+                    kwargs[cls.init_name(field)] = Argument(
                         value=field_value, is_default=is_default
                     )
 
             return ([], kwargs)
 
+        @staticmethod
+        def init_name(field):
+            # the argument of __init__ for the private attribute _x is x
+            return getattr(field, "alias", None) or field.name
+
         def argument(self, value, pos_or_name):
             if isinstance(pos_or_name, int):
                 args = [field for field in attrs.fields(type(value)) if field.init]
                 pos_or_name = args[pos_or_name].name
+            else:
+                for field in attrs.fields(type(value)):
+                    if self.init_name(field) == pos_or_name:
+                        pos_or_name = field.name
             return getattr(value, pos_or_name)
 
 
@@ -387,13 +396,26 @@ else:
                     ):
                         is_default = True
 
-                    kwargs[name] = Argument(value=field_value, is_default=is_default)
+                    kwargs[cls.init_name(name, field)] = Argument(
+                        value=field_value, is_default=is_default
+                    )
 
             return ([], kwargs)
+
+        @staticmethod
+        def init_name(name, field):
+            # a field with an alias has to be initialized with this alias
+            alias = getattr(field, "alias", None)
+            if isinstance(alias, str) and alias.isidentifier():
+                return alias
+            return name
 
         @classmethod
         def argument(cls, value, pos_or_name):
             assert isinstance(pos_or_name, str)
+            for name, field in get_fields(value).items():  # type: ignore
+                if cls.init_name(name, field) == pos_or_name:
+                    pos_or_name = name
             return getattr(value, pos_or_name)
 
 
